@@ -330,7 +330,50 @@ def id_truth_tests(fn: ast.AST, class_consts=None) -> List[Tuple[int, str, str]]
             return key_is_id(e.slice)
         return False
 
+    _ID_LIST_KEYS = ("top", "bottom", "element_ids")
+
+    def id_collection(e, depth=0) -> bool:
+        """a LIST of ids read from an order spec: `spec.get("element_ids")`, `fixed.get(group)`, `self._top_fixed_ids`, ... `or ()`"""
+        while True:
+            if isinstance(e, ast.BoolOp) and isinstance(e.op, ast.Or):
+                e = e.values[0]
+                continue
+            if isinstance(e, ast.Call) and u(e.func) in ("tuple", "list", "iter", "sorted", "reversed", "enumerate") and e.args:
+                e = e.args[0]
+                continue
+            break
+        if isinstance(e, (ast.Attribute, ast.Name)):
+            name = e.attr if isinstance(e, ast.Attribute) else e.id
+            if name.endswith("_ids") or name == "element_ids":
+                return True
+            if isinstance(e, ast.Name) and e.id in assigned and depth < 3:
+                return any(id_collection(v, depth + 1) for v in assigned[e.id])
+            return False
+        key, recv = None, None
+        if isinstance(e, ast.Call) and isinstance(e.func, ast.Attribute) and e.func.attr == "get" and e.args:
+            key, recv = e.args[0], e.func.value
+        elif isinstance(e, ast.Subscript) and not isinstance(e.slice, ast.Slice):
+            key, recv = e.slice, e.value
+        if key is None:
+            return False
+        if isinstance(key, ast.Constant):
+            return key.value in _ID_LIST_KEYS
+        # `fixed.get(group)`: the receiver is the "fixed" object of an order spec
+        def is_fixed(r, d=0):
+            t = u(r)
+            if "'fixed'" in t or '"fixed"' in t:
+                return True
+            if isinstance(r, ast.BoolOp):
+                return any(is_fixed(v, d) for v in r.values)
+            if isinstance(r, ast.Name) and r.id in assigned and d < 3:
+                return any(is_fixed(v, d + 1) for v in assigned[r.id])
+            return False
+        return is_fixed(recv)
+
     id_names: Set[str] = set()
+    for n in ast.walk(fn):
+        if isinstance(n, (ast.comprehension, ast.For)) and isinstance(n.target, ast.Name) and id_collection(n.iter):
+            id_names.add(n.target.id)
     changed = True
     while changed:
         changed = False
@@ -377,6 +420,10 @@ def id_truth_tests(fn: ast.AST, class_consts=None) -> List[Tuple[int, str, str]]
 
 
 ID_CONTROL = '''
+def _fixed(self, group):
+    fixed = self._order_dict.get("fixed") or {}
+    return tuple(element_id for element_id in fixed.get(group) or () if element_id)
+
 def _idx(self, dim, element_id):
     shimmed_id = dim.translate_element_id(element_id)
     if not shimmed_id:
